@@ -20,7 +20,7 @@ type fixerEngine struct{}
 
 var respStates = []string{"desc", "nodesc", "ref"}
 
-func fixerSysCount() int { return 7*27 + 7 + 6 }
+func fixerSysCount() int { return 7*27 + 7 + 8 }
 
 func (fixerEngine) counts(tier string) (sys, rnd, fix int) {
 	sys = fixerSysCount()
@@ -85,6 +85,11 @@ func (e fixerEngine) Gen(prop, tier string, seed uint64, idx int) *runner.Case {
 		case 4: // empty paths, path item without operations
 			base["paths"] = jx.Obj{"/p": jx.Obj{}}
 		case 5: // nothing at all
+		case 6: // a path item carrying a $ref next to its own operations
+			base["paths"] = jx.Obj{"/withRef": jx.Obj{"$ref": "#/x-shared/item", "get": jx.Obj{"responses": jx.Obj{"200": mkResp("nodesc", 1), "default": mkResp("nodesc", 2)}}, "patch": jx.Obj{"responses": jx.Obj{"204": mkResp("nodesc", 3)}}},
+				"/plain": jx.Obj{"get": jx.Obj{"responses": jx.Obj{"200": mkResp("nodesc", 4)}}}}
+		case 7: // descriptions made of white space are not empty
+			base["paths"] = jx.Obj{"/p": jx.Obj{"get": jx.Obj{"responses": jx.Obj{"200": jx.Obj{"description": " "}, "404": mkResp("nodesc", 1)}}}}
 		}
 		doc = base
 	case idx < sys+rnd:
